@@ -255,6 +255,19 @@ M("M_C13_x5", ["C13"], "cotengra/interface.py",
   "            lazy_variables_and_constants.insert(0, constant)\n",
   "expressions with constants: the constants are gathered in front of the variables (same in both cache modes: only the dense reference sees it)", ["tests/test_interface.py"])
 
+M("M_C13_x6", ["C13"], "cotengra/interface.py",
+  "    lz_output = full_expr(*lazy_variables_and_constants)\n",
+  "    if lazy_variables or not cache:\n"
+  "        lz_output = full_expr(*lazy_variables_and_constants)\n"
+  "    else:\n"
+  "        # every input is constant: remember the performed contraction\n"
+  "        memo = globals().setdefault(\"_ALL_CONSTANT_RESULTS\", {})\n"
+  "        mkey = (tuple(map(tuple, inputs)), tuple(output), tuple(size_dict.items()), via is None)\n"
+  "        if mkey not in memo:\n"
+  "            memo[mkey] = full_expr(*lazy_variables_and_constants)\n"
+  "        lz_output = memo[mkey]\n",
+  "all operands constant: the performed contraction is remembered per contraction (cache=True only), other constant arrays get the first result (stale cache)", ["tests/test_interface.py"])
+
 # ------------------------------- C15 --------------------------------------
 M("M_C15_a", ["C15"], "cotengra/utils.py",
   "            with open(tmpname, \"wb\") as f:\n                pickle.dump(v, f)\n            os.replace(tmpname, fname)",
